@@ -545,6 +545,18 @@ def c17(rng):
         if fl == 0:
             out.append(('decrypt_adapter == RT||s', None, None, None, dec == RT + s if sf else True))
         out.append((nm + 'decrypted sig (+flag byte) unlocks', [gpush(dec + (bytes([fl]) if fl else b'')), bs(l3)], sf, cfg, True))
+    # an adapter instruction must not use what an earlier adapter instruction of the same run left in the cache:
+    # first another adapter is made for a different tweak point (the default flags cache r, R, T, sa), then the honest
+    # chain is run
+    tw2 = bytes(rng.getrandbits(8) for _ in range(32))
+    T2 = F.derive_point_from_scalar(F.clamp_scalar(tw2))
+    other = gpush(SEEDS[b]) + gpush(b'other message') + gpush(T2) + bytes([F.opcodes_inverse['OP_MAKE_ADAPTER_SIG_PUBLIC'][0]]) + \
+        bytes([F.opcodes_inverse['OP_POP1'][0], 2])
+    l1p, l3p = T.make_adapter_locks_pub(X, Tp)
+    w0 = T.make_adapter_witness(seed, Tp, sf)
+    out.append(('adapter-locks after another adapter was made in the same run: verify lock', [other, bs(w0), bs(l1p)], sf, cfg, True))
+    out.append(('adapter-locks after another adapter was made in the same run: decrypt + concat + check_sig',
+                [other, bs(w0), bs(T.make_adapter_decrypt(tw)), bytes([F.opcodes_inverse['OP_CONCAT'][0]]), bs(l3p)], sf, cfg, True))
     w = T.make_adapter_witness(seed, Tp, sf)
     # deprecated single-script lock
     lk = T.make_adapter_lock_prv(X, tw)
@@ -599,6 +611,18 @@ def c18(rng):
         acc = p if acc is None else ed_add(acc, p)
         ok = ok and Ys[i] == acc and am[pubs[i]][2] == acc
     out.append(('amhl: tweak points are prefix sums', None, None, None, ok))
+    # model/AMHL.v (the definitions the C18 link theorems are about) vs the AMHL class: whole setup, every view, every
+    # check_setup verdict
+    def _view(v):
+        if len(v) == 1: return 'first:' + v[0].hex()
+        if len(v) == 2: return 'last:%s:%s' % (v[0][0].hex(), v[1].hex())
+        return 'mid:%s:%s:%s' % (v[0].hex(), v[1].hex(), v[2].hex())
+    views = [_AM.AMHL.setup_for(setup, i) for i in range(n + 1)]
+    exp = 'ok %s %s %s' % (','.join(y.hex() for y in ys), ','.join(Y.hex() for Y in Ys),
+                           ','.join('%s=%s' % (_view(v), 'T' if _AM.AMHL.check_setup(v, i, n) else 'F') for i, v in enumerate(views)))
+    out.append(('MT', 'AMHL %d %s' % (n, seed.hex()), exp))
+    out.append(('MT', 'AMHLKEY %s %s' % (Ys[-1].hex(), am['key'].hex()), 'ok T'))
+    out.append(('MT', 'AMHLKEY %s %s' % (Ys[0].hex(), am['key'].hex()), 'ok ' + ('T' if _AM.AMHL.verify_lock_key(Ys[0], am['key']) else 'F')))
     ok = all(_AM.AMHL.check_setup(_AM.AMHL.setup_for(setup, i), i, n) for i in range(n + 1))
     out.append(('amhl: every view passes check_setup', None, None, None, ok))
     ok = len(ys) == n and len(Ys) == n
@@ -614,6 +638,7 @@ def c18(rng):
     for i in range(n - 1, -1, -1):
         if sig is not None:
             k = T.release_left_amhl_lock(wits[i + 1].bytes, sig, am[pubs[i + 1]][3])
+            out.append(('MT', 'AMHLREL %s %s %s' % (wits[i + 1].bytes.hex(), sig.hex(), am[pubs[i + 1]][3].hex()), 'ok ' + k.hex()))
         sig = T.decrypt_adapter(wits[i].bytes, k)
         tail = bytes([F.opcodes_inverse['OP_TRUE'][0]]) if i in rsub else b''   # PTLC main branch selector
         out.append(('amhl(%s): hop %d (%s) unlocks with released scalar' % (mode, i, 'ptlc' if i in rsub else 'single-sig'),
@@ -689,6 +714,15 @@ def bld_cases(rng):
     cert = T.make_delegate_key_cert(SEEDS[a], pk2, now - 10, now + 10)
     wd = T.make_delegate_key_witness(SEEDS[b], cert, sf)
     out.append(('C14', 'BLD delegate_key_witness %s %s' % (hx(bs(wd)[2:66]), hx(cert.pack())), bs(wd)))
+    out.append(('C14', 'BLD delegate_key_chain_lock %s %s' % (hx(pk), flh), bs(T.make_delegate_key_chain_lock(pk, flh))))
+    chain_ids = rng.sample(range(len(SEEDS)), 3)
+    certs, signer = [], SEEDS[a]
+    for ci in chain_ids[:rng.randint(1, 3)]:
+        certs.insert(0, T.make_delegate_key_cert(signer, PUBS[ci], now - 10, now + 10))
+        signer = SEEDS[ci]
+    wc = T.make_delegate_key_chain_witness(signer, list(certs), sf)
+    sigc = bs(wc)[2:2 + bs(wc)[1]]
+    out.append(('C14', 'BLD delegate_key_chain_witness %s %s' % (hx(sigc), ' '.join(hx(c.pack()) for c in certs)), bs(wc)))
     S = Script.from_src(rng.choice(LEAF_BODIES))
     lock = T.make_taproot_lock(pk, S, sigflags=flh)
     out.append(('C05', 'BLD taproot_lock %s %s' % (hx(bs(lock)[2:34]), flh), bs(lock)))
